@@ -82,18 +82,21 @@ Definition spec_kind (t : aty) : kind :=
   end.
 Definition spec_opt (t : aty) : bool := match t with APath _ NOption _ => true | _ => false end.
 
+(* the name tauri-macros starts from (wrapper.rs parse_arg): the identifier; the empty string for the wildcard;
+   for a struct / tuple-struct pattern the identifier of the pattern's path - carried in p_name in snake form *)
+Definition spec_pname (p : param) : str := match p_pat p with PatWild => [] | _ => p_name p end.
 Definition spec_entry (cf : cfg) (c : cmd) (p : param) : list (str * bool) :=
   match spec_kind (p_ty p) with
   | KInjected => []
-  | KChannel => [(spec_key cf c (p_name p), false)]
-  | KValue => [(spec_key cf c (p_name p), spec_opt (p_ty p))]
+  | KChannel => [(spec_key cf c (spec_pname p), false)]
+  | KValue => [(spec_key cf c (spec_pname p), spec_opt (p_ty p))]
   end.
 (* one (key, omittable) pair per parameter Tauri fills from the frontend, in parameter order *)
 Definition spec_keys (cf : cfg) (c : cmd) : list (str * bool) := flat_map (spec_entry cf c) (c_params c).
 Definition spec_value_keys (cf : cfg) (c : cmd) : list str :=
-  flat_map (fun p => match spec_kind (p_ty p) with KValue => [spec_key cf c (p_name p)] | _ => [] end) (c_params c).
+  flat_map (fun p => match spec_kind (p_ty p) with KValue => [spec_key cf c (spec_pname p)] | _ => [] end) (c_params c).
 Definition spec_chan_keys (cf : cfg) (c : cmd) : list str :=
-  flat_map (fun p => match spec_kind (p_ty p) with KChannel => [spec_key cf c (p_name p)] | _ => [] end) (c_params c).
+  flat_map (fun p => match spec_kind (p_ty p) with KChannel => [spec_key cf c (spec_pname p)] | _ => [] end) (c_params c).
 
 (* ---- the inputs the quantifier speaks about ---- *)
 Definition args_sane (a : option (list garg)) : bool := match a with Some [] => false | _ => true end.
@@ -134,14 +137,16 @@ Definition named_by_tauri (p : param) : bool := match spec_kind (p_ty p) with KI
 (* the command attribute selects a case that names some key differently from the configured case *)
 Definition kf_macro_case (cf : cfg) (c : cmd) : bool :=
   existsb (fun p => named_by_tauri p &&
-                    negb (str_eqb (spec_key cf c (p_name p)) (spec_name (configured cf) (p_name p)))) (c_params c).
+                    negb (str_eqb (spec_key cf c (spec_pname p)) (spec_name (configured cf) (spec_pname p)))) (c_params c).
 (* camelCase is what Tauri applies and a parameter that gets a key is named with underscores only:
    Tauri's key is the empty string, the generator (since the call-site guard) emits the name itself *)
 Definition kf_underscore_name (cf : cfg) (c : cmd) : bool :=
   rule_eqb (configured cf) RCamel &&
   existsb (fun p => named_by_tauri p && negb (has_letter (p_name p))) (c_params c).
+(* a parameter Tauri fills from the frontend that is not bound by a plain identifier *)
+Definition kf_pattern (c : cmd) : bool := existsb (fun p => negb (bound p) && named_by_tauri p) (c_params c).
 Definition kf_any (cf : cfg) (c : cmd) : bool :=
-  kf_bare_window c || kf_macro_case cf c || kf_underscore_name cf c.
+  kf_bare_window c || kf_macro_case cf c || kf_underscore_name cf c || kf_pattern c.
 
 (* ---- boolean oracle on an observation (list of entries reaching invoke) ---- *)
 Definition kb_eqb (a b : str * bool) : bool := str_eqb (fst a) (fst b) && Bool.eqb (snd a) (snd b).
